@@ -22,7 +22,7 @@
    untrusted_node.go): after a failed socket write it keeps emptying its queue until the queue is closed;
    all theorems are for sdrain = true (the fourth argument `true` of run / step / prompt below);
    C19_sender_returns_refuted is the witness for a sender that returns on the first failed write: a
-   deadlock.  The untrusted node's own Run (its reader, its sender, its 100-slot queue, its phased
+   state in which nothing can move any more.  The untrusted node's own Run (its reader, its sender, its 100-slot queue, its phased
    shutdown) is the same protocol in small; harness component "untrusted" runs a real UntrustedNode
    against a peer that never reads and ties this part to the code.
 
@@ -155,15 +155,50 @@ Proof. exact d26_refuted. Qed.
 Print Assumptions C19_d26_refuted.
 
 (* a sendOutgoing that returns on the first failed write (sdrain = false): with its queue full and the
-   reader waiting inside Add, after Stop no action whatsoever is enabled and stopped is never reached *)
+   reader waiting inside Add, after Stop no action is enabled any more - of the run loop, of any goroutine,
+   of the peers - except new calls of the public API by the application, which do not help *)
 Theorem C19_sender_returns_refuted :
   exists acts, prompt 100 false true false acts = true /\
     let w := run 100 false true false acts in
-    stopcall w = 2 /\ stopped w = false /\
-    (forall a, step 100 false true false w a = None) /\
-    (forall acts', stopped (run_from 100 false true false w acts') = false).
+    stopcall w = 2 /\ stopped w = false /\ pc_of w = RWaitIn /\
+    (forall a, a <> AApiTx -> step 100 false true false w a = None).
 Proof. exact sender_returns_refuted. Qed.
 Print Assumptions C19_sender_returns_refuted.
+
+(* The application inside Node.HandleTx / SendTx (TxChannel.Add) is one more producer of the tx channel
+   (action AApiTx, thread AP): it is not started by Run and not counted by any thread counter.
+   - C19_stop_progress above includes it (a caller waiting for room holds the mutex; the consumer is
+     alive until the channel is closed, so the caller gets through and Close gets the mutex);
+   - C19_stop_bounded_work charges every call begun (7 steps) like an untrusted-peer message; no
+     assumption that callers stop calling is needed for progress or for C19_stop_reaches_stopped; for
+     "every fair run terminates" the assumption is that the channel mutex is fair to Close (Go's
+     sync.Mutex is: starvation mode) or that the application does not call without pause for ever;
+   - a call begun after the channel was closed returns an error at once and changes nothing else;
+   - no goroutine is ever parked in a send on a closed channel (the Go panic): Add keeps the mutex while
+     it waits for room and Close needs the mutex. *)
+Theorem C19_no_send_on_closed : forall (cap : Z) (ucfg daf : bool) (acts : list act) t c f,
+  thread (run cap ucfg daf true acts) t = TLive (PSend c) f -> ch_open (run cap ucfg daf true acts) c = true.
+Proof. exact no_send_on_closed. Qed.
+Print Assumptions C19_no_send_on_closed.
+
+Theorem C19_api_after_close : forall (cap : Z) (ucfg daf : bool) (acts : list act),
+  let w := run cap ucfg daf true acts in
+  x_open (w_ch w) = false -> thread w AP = TNone ->
+  exists w1 w2, step cap ucfg daf true w AApiTx = Some w1 /\ step cap ucfg daf true w1 (AStep AP KEnd 0) = Some w2 /\
+                thread w2 AP = TNone /\ w_ch w2 = w_ch w /\ w_ctl w2 = w_ctl w /\ w_cnt w2 = w_cnt w /\ w_dat w2 = w_dat w.
+Proof. exact api_after_close. Qed.
+Print Assumptions C19_api_after_close.
+
+(* an Add that waits for room OUTSIDE the mutex (step_sol): Close closes the channel under a parked
+   sender - "send on closed channel"; the code on the same schedule: the run loop waits at Close *)
+Theorem C19_send_outside_lock_refuted :
+  send_on_closed (run_sol 1 false true true sol_acts) = true /\
+  send_on_closed (run 1 false true true sol_acts) = false /\
+  pc_of (run 1 false true true sol_acts) = RCloseTx /\
+  step 1 false true true (run 1 false true true sol_acts) (ARun true) = None /\
+  thread (run 1 false true true sol_acts) AP = TLive (PSend CTx) 0.
+Proof. exact send_outside_lock_refuted. Qed.
+Print Assumptions C19_send_outside_lock_refuted.
 
 (* D27: without the prompt-registration hypothesis both safety theorems fail (code as it is) *)
 Theorem C19_d27_refuted :
@@ -265,6 +300,26 @@ Example C19_example_new_scenarios :
   = [[0]; [0; 1; 0]; [0; 1; 1; 0]; [0; 2]; [0; 1]; [0; 1; 1; 1; 0]; [0; 0; 0]; [0; 1; 1; 1; 1; 0; 0; 1; 0; 0]; [0; 1; 1]] /\
   urun [UStart; UCounts; UFill; UCounts; UStop; UCounts] = [[0; 1; 1]; [0; 2; 1]; [0; 1]; [0; 2; 1]; [0; 1]; [0; 0; 0]] /\
   urun [UStart; UFill; UReset; UStop] = [[0; 1; 1]; [0; 1]; [0]; [0; 1]].
+Proof. vm_compute. repeat split; reflexivity. Qed.
+
+(* the application-side scenarios: 101 HandleTx calls while a relevant tx sits in a held handler (the
+   101st waits for room), Stop, release: Stop and Run return, all 101 calls returned nil, no panic; and
+   persistence when the node is NOT in sync at the stop (in sync cleared by a block inventory; tx fed
+   locally during the initial sync): stored = in-memory, and after a restart on the same storage the
+   re-announced tx is not delivered again *)
+Example C19_example_api_scenarios :
+  srun [SStart; SAccept; SVersion; SSync; SHold 1; STx 1 true; SApiFill 101; SStopAsync; SRelease false; SStopWait;
+        SApiResult; SQuiet; SStored]
+  = [[0]; [0; 1; 0]; [0; 1; 1; 0]; [0; 1]; [0]; [0; 1]; [0; 100; 1]; [0; 0]; [0]; [0; 1; 1]; [0; 1; 101; 0; 0]; [0; 0; 0];
+     [0; 0; 0; 0; 1; 1; 1; 1; 0; 0]] /\
+  srun [SStart; SAccept; SVersion; SSync; STx 1 true; SBlockInv; SStop; SQuiet; SStored; SRestart; SAccept; SVersion; SSync;
+        STx 1 true; SStop; SQuiet; SStored]
+  = [[0]; [0; 1; 0]; [0; 1; 1; 0]; [0; 1]; [0; 1]; [0; 0]; [0; 1; 1]; [0; 0; 0]; [0; 0; 0; 0; 1; 1; 1; 1; 0; 0]; [0];
+     [0; 1; 0]; [0; 1; 1; 0]; [0; 1]; [0; 0]; [0; 1; 1]; [0; 0; 0]; [0; 0; 0; 0; 1; 1; 1; 1; 0; 0]] /\
+  srun [SStart; SAccept; SVersion; SHeaders 2; SApiTx 1 true; SApiTx 2 false; SStop; SQuiet; SStored; SRestart; SAccept;
+        SVersion; SSync; STx 1 true; STx 3 true; SStop; SQuiet; SStored]
+  = [[0]; [0; 1; 0]; [0; 1; 1; 0]; [0; 2]; [0; 0; 1]; [0; 0; 0]; [0; 1; 1]; [0; 0; 0]; [0; 0; 0; 0; 1; 1; 1; 1; 0; 0]; [0];
+     [0; 1; 0]; [0; 1; 1; 0]; [0; 1]; [0; 0]; [0; 1]; [0; 1; 1]; [0; 0; 0]; [0; 0; 0; 0; 1; 2; 2; 1; 0; 0]].
 Proof. vm_compute. repeat split; reflexivity. Qed.
 
 (* the scenario model (code as it is) on the regression scenario of D26: the consumer fails while the
